@@ -215,6 +215,18 @@ func (e *Engine) generateFor(ps *PropertySpec) ([]*FuncGen, error) {
 		}
 		gens = append(gens, sg...)
 	}
+	// pins of the packages that hold a function under contract here
+	pinPkgs := map[string]bool{}
+	for _, k := range order {
+		if fn := done[k].fn; fn != nil && fn.Pkg != nil {
+			pinPkgs[fn.Pkg.Pkg.Path()] = true
+		}
+	}
+	for _, pin := range e.cs.Pins {
+		if pinPkgs[pin.PkgPath] {
+			gens = append(gens, e.genPin(pin))
+		}
+	}
 	for _, lm := range e.cs.Lemmas {
 		if !matchAny(lemmaRes, lm.Name) {
 			continue
